@@ -69,6 +69,8 @@ func classify(err error) string {
 		return "err:id"
 	case errors.Is(err, single.ErrQueueFull):
 		return "err:full"
+	case errors.Is(err, context.Canceled), errors.Is(err, context.DeadlineExceeded):
+		return "err:ctx" // the call answered with its context's error
 	case errors.Is(err, hx.ErrInjected):
 		return "err:store" // an injected datastore fault came back through the call
 	default:
@@ -76,9 +78,36 @@ func classify(err error) string {
 	}
 }
 
+// callCtx builds the context a call is made with: "" / "live", "cancelled" (already cancelled), "expired" (deadline in the past).
+func callCtx(kind string) (context.Context, context.CancelFunc) {
+	switch kind {
+	case "cancelled":
+		ctx, cancel := context.WithCancel(context.Background())
+		cancel()
+		return ctx, cancel
+	case "expired":
+		return context.WithDeadline(context.Background(), time.Unix(1, 0))
+	}
+	return context.Background(), func() {}
+}
+
+func argCtx(o hx.Op) (string, bool) {
+	if !o.Has("ctx") {
+		return "", true
+	}
+	switch v := o.Str("ctx"); v {
+	case "live", "cancelled", "expired":
+		return v, true
+	}
+	return "", false
+}
+
 // submit calls SubmitBatchTxs (seq) or AddBatch (queue).
-func (w *world) submit(id []byte, txs [][]byte) string {
-	ctx := context.Background()
+func (w *world) submit(id []byte, txs [][]byte) string { return w.submitCtx("", id, txs) }
+
+func (w *world) submitCtx(kind string, id []byte, txs [][]byte) string {
+	ctx, cancel := callCtx(kind)
+	defer cancel()
 	if w.mode == "queue" {
 		return classify(w.q.AddBatch(ctx, coresequencer.Batch{Transactions: txs}))
 	}
@@ -92,8 +121,11 @@ func (w *world) submit(id []byte, txs [][]byte) string {
 }
 
 // next calls GetNextBatch (seq) or Next (queue).
-func (w *world) next(id []byte) ([][]byte, string) {
-	ctx := context.Background()
+func (w *world) next(id []byte) ([][]byte, string) { return w.nextCtx("", id) }
+
+func (w *world) nextCtx(kind string, id []byte) ([][]byte, string) {
+	ctx, cancel := callCtx(kind)
+	defer cancel()
 	var b *coresequencer.Batch
 	var err error
 	if w.mode == "queue" {
@@ -303,11 +335,18 @@ func (r *runner) exec(o hx.Op) (line string) {
 			ok = !seq
 		}
 		txs, ok2 := argList(o, "txs")
-		if !ok || !ok2 {
+		kind, ok3 := "", true
+		if o.Verb == "submit" {
+			kind, ok3 = argCtx(o)
+		}
+		if !ok || !ok2 || !ok3 {
 			return "bad-op"
 		}
 		before, nb := w.ds.Image(), w.ds.NumWrites()
-		out := w.submit(id, txs)
+		out := w.submitCtx(kind, id, txs)
+		if kind != "" {
+			r.c.Hit("ctx:submit:" + kind)
+		}
 		r.c.Hit("submit:" + out)
 		r.m.onSubmit(id, txs, out, before, nb)
 		return out + " " + showDisk(w.ds.Image())
@@ -318,12 +357,19 @@ func (r *runner) exec(o hx.Op) (line string) {
 			id, ok = argBytes(o, "id")
 			ok = ok && seq
 		}
-		if !ok {
+		kind, ok3 := "", true
+		if o.Verb == "next" {
+			kind, ok3 = argCtx(o)
+		}
+		if !ok || !ok3 {
 			return "bad-op"
 		}
 		before, nb := w.ds.Image(), w.ds.NumWrites()
 		fd := w.ds.FailDelete
-		txs, out := w.next(id)
+		txs, out := w.nextCtx(kind, id)
+		if kind != "" {
+			r.c.Hit("ctx:next:" + kind)
+		}
 		r.noteFaults(fd)
 		r.c.Hit("next:" + strings.SplitN(out, "=", 2)[0])
 		r.m.onNext(id, txs, out, before, nb)
